@@ -1,7 +1,7 @@
-(* C20 - the bound of 32 controllers in C20_quiescent_learn_partial,
-   C20_quiescent_crash_free_partial and C20_refines_spec_partial is tight:
+(* C20 - the bound of 32 controllers in C20_nocross_learn_partial,
+   C20_nocross_crash_free_partial and C20_refines_spec_partial is tight:
    PendingQueue holds 32 ids; the 33rd controller offered at the same time is
-   not remembered and is offered again - in a quiescent history.  Needs more
+   not remembered and is offered again - in a nocross history.  Needs more
    than 32 queued addresses, i.e. lies outside the property's quantifier
    (2..4 addresses): an observation, not a finding. *)
 From Coq Require Import List ZArith Bool Lia.
@@ -41,7 +41,7 @@ Lemma capacity_refuted :
   exists tr fin,
     run cap_ports world0 cap_history = (tr, Some fin) /\
     Forall (evok cap_ports) cap_history /\
-    quiescent cap_history tr = true /\
+    nocross cap_history tr = true /\
     length (nodup Z.eq_dec (ccids cap_history)) = 34%nat /\
     (* controller 32 is offered twice and takes two queued addresses *)
     offers_of 32 tr = 2%nat /\
